@@ -1,5 +1,6 @@
 import AgdbCrash.Model.Driver
 import AgdbCrash.Model.Open
+import AgdbCrash.Model.Frame
 open AgdbCrash
 
 def hexVal (c : Char) : Option Nat :=
@@ -33,24 +34,48 @@ def handleOpen (l : String) : String :=
 
 structure MState where
   prop : String := ""
+  /-- C05: the current variant is an in-memory one -/
+  memory : Bool := false
   tx : Driver.DState := {}
+
+/-- C05 lines: `new <variant>`, `q|t … | <res>`, `m <op>` -/
+def handleMaint (m : MState) (l : String) : MState × String :=
+  match l.splitOn " | " with
+  | [cmd, hint] =>
+    let first := (cmd.splitOn " ").headD ""
+    if first = "q" || first = "t" then (m, hint.trimAscii.toString) else (m, "bad-op")
+  | [cmd] =>
+    match cmd.splitOn " " with
+    | ["new", v] =>
+      if v = "mmap" || v = "file" || v = "any_mmap" || v = "any_file" then ({ m with memory := false }, "ok")
+      else if v = "memory" || v = "any_memory" then ({ m with memory := true }, "ok")
+      else (m, "bad-op")
+    | ["m", op] =>
+      -- C05_frame / C05_open_image: every applicable operation preserves all observations
+      match Frame.applicable m.memory op with
+      | some true => (m, "same")
+      | some false => (m, "n/a")
+      | none => (m, "bad-op")
+    | _ => (m, "bad-op")
+  | _ => (m, "bad-op")
 
 def processLine (m : MState) (line : String) : MState × String :=
   let l := line.trimAscii.toString
   match l.splitOn " " with
   | ["case", n] =>
     match n.toNat? with
-    | some _ => ({ prop := m.prop, tx := { prop := m.prop } }, l)
+    | some _ => ({ prop := m.prop, memory := false, tx := { prop := m.prop } }, l)
     | none => (m, "bad-op")
   | ["prop", p] =>
     if p = "C03" || p = "C02" || p = "C32" || p = "C07" || p = "C05" then
-      ({ prop := p, tx := { m.tx with prop := p } }, l)
+      ({ m with prop := p, tx := { m.tx with prop := p } }, l)
     else (m, "bad-op")
   | _ =>
     if m.prop = "C03" || m.prop = "C02" || m.prop = "C32" then
       let (tx, out) := Driver.handle m.tx l
       ({ m with tx := tx }, out)
     else if m.prop = "C07" then (m, handleOpen l)
+    else if m.prop = "C05" then handleMaint m l
     else (m, "bad-op")
 
 partial def loop (h : IO.FS.Stream) (out : IO.FS.Stream) (m : MState) : IO Unit := do
